@@ -760,6 +760,37 @@ fn case_markdown(rep: &mut Report, text: &str, ilt: bool, dict: &Arc<FstDictiona
             fail(rep, c, mark(c, &format!("[markdown] {m}")), inp.clone());
         }
     }
+    // C02_document_markdown_partial: contract met and every Markdown token covers characters => Document::parse does not
+    // panic and its tokens are a gapped tiling (general_failures above: bounds / order) without any zero-width token
+    if let Ok(pts) = &imp {
+        let zw = |t: &Token| t.span.start == t.span.end;
+        if bad.is_empty() && !pts.iter().any(zw) {
+            rep.count("md_doc_in_partial_theorem_domain(no zero-width parser token)");
+            match &doc {
+                Ok(ts) => {
+                    if let Some((i, t)) = ts.iter().enumerate().find(|(_, t)| zw(t)) {
+                        fail(rep, "md_doc_zero_width", mark("md_doc_zero_width", &format!("[markdown] document token {i} at {} ({}) is zero-width although no Markdown token is", t.span.start, kind_str(&t.kind))), inp.clone());
+                    }
+                }
+                Err(m) => fail(rep, "md_doc_panic", mark("md_doc_panic", &format!("Document::new panicked on Markdown tokens that all cover characters, contract met: {m} at {}", last_panic_location())), inp.clone()),
+            }
+        }
+        // the shapes the three _limit Examples isolate (what a theorem about zero-width tokens must exclude), counted on real vectors
+        let mut cover_end = 0usize;
+        for (i, t) in pts.iter().enumerate() {
+            if zw(t) {
+                if matches!(t.kind, TokenKind::Newline(_)) && t.span.start < cover_end {
+                    rep.count("md_limit_a:zero_width_newline_before_the_end_of_an_earlier_token");
+                }
+                if i >= 2 && i + 1 < pts.len() && pts[i - 2].kind.is_space() && pts[i - 1].kind.is_space() && pts[i + 1].kind.is_space()
+                    && pts[i - 2].span.end == pts[i - 1].span.start && pts[i - 1].span.end == pts[i + 1].span.start {
+                    rep.count("md_limit_b:space_space_zero_width_space");
+                }
+            } else {
+                cover_end = cover_end.max(t.span.end);
+            }
+        }
+    }
 }
 
 const MD_BLOCKS: &[&str] = &[
